@@ -1,7 +1,8 @@
 (** C07 proofs, part 13: StackTrie.insert maintains the view relation (work in progress). *)
 From Coq Require Import List ZArith NArith Arith Bool Lia.
 From Kardia Require Import C07.Model C07.ProofsBase C07.ProofsMap C07.ProofsCanon C07.ProofsEnc
-     C07.ProofsCache C07.ProofsRlp C07.ProofsCodec C07.ProofsStack.
+     C07.ProofsCache C07.ProofsRlp C07.ProofsCodec C07.ProofsStack C07.ProofsCommit C07.ProofsReopen
+     C07.ProofsProof C07.ProofsBuild.
 Import ListNotations.
 
 (* ------------------------------------------------------------------ list surgery *)
@@ -414,6 +415,13 @@ Proof.
     exists s', n'. split; auto. split; [rewrite (E2 _ (fuel_of_gt _)); reflexivity|]. auto.
 Qed.
 
+Lemma in_hexkv k' w l : In (k', w) (map hexkv l) <-> exists kb', In (kb', w) l /\ k' = keybytes_to_hex kb'.
+Proof.
+  rewrite in_map_iff. split.
+  - intros ([kb' v'] & E & Hin). unfold hexkv in E. cbn in E. inversion E; subst. eauto.
+  - intros (kb' & Hin & ->). exists (kb', w). auto.
+Qed.
+
 Lemma st_updates_srel : forall rest done s n,
   state_rel s n -> canon n ->
   (forall k' w, has n k' w <-> In (k', w) (map hexkv done)) ->
@@ -428,14 +436,15 @@ Proof.
   - exists s, n. rewrite app_nil_r. cbn. auto.
   - inversion Hok as [|? ? [Hb Hv] Hok']; subst. cbn [fst snd] in *. destruct Hs as [Hs1 Hs2].
     destruct (st_update_srel s n kb v Hst Hc Hb Hv) as (s1 & n1 & E1 & E2 & Hr1 & Hc1 & Hi1).
-    { intros k' w Hk'. apply Hh in Hk'. apply in_map_iff in Hk' as ([kb' v'] & E & Hin). inversion E; subst.
-      apply (Hlt (kb', v') (kb, v)); [auto|left; auto]. }
+    { intros k' w Hk'. apply Hh in Hk'. apply in_hexkv in Hk' as (kb' & Hin & ->).
+      apply (Hlt (kb', w) (kb, v)); [auto|left; auto]. }
     destruct (IH (done ++ [(kb, v)]) s1 n1 (or_intror Hr1) Hc1) as (s' & n' & F1 & F2 & F3 & F4 & F5); auto.
     + intros k' w. rewrite (Hi1 k' w), map_app, in_app_iff, Hh. cbn [map hexkv fst snd In]. split.
       * intros [[-> ->]|[_ Hin]]; auto.
       * intros [Hin|[E|[]]]; [|inversion E; subst; auto].
-        right. split; auto. intros ->. apply in_map_iff in Hin as ([kb' v'] & E & Hin). inversion E; subst.
-        eapply lt_pf_irrefl. rewrite H1 at 1. apply (Hlt (kb', v') (kb, v)); [auto|left; auto].
+        right. split; auto. intros Ek'. apply in_hexkv in Hin as (kb' & Hin & ->).
+        apply (lt_pf_irrefl (keybytes_to_hex kb)). rewrite <- Ek' at 1.
+        apply (Hlt (kb', w) (kb, v)); [auto|left; auto].
     + intros a b Ha Hb'. apply in_app_iff in Ha as [Ha|[<-|[]]].
       * apply Hlt; [auto|right; auto].
       * rewrite Forall_forall in Hs1. apply Hs1; auto.
@@ -444,3 +453,111 @@ Proof.
 Qed.
 
 End Ins.
+
+Section Top.
+Variable H : bytes -> bytes.
+Hypothesis Hlen : forall x, length (H x) = 32.
+
+Lemma build_caches : forall fuel m root, caches_ok H root (build fuel m).
+Proof.
+  induction fuel as [|f IH]; intros m root; [exact I|].
+  destruct m as [|[k v] [|e2 t]].
+  - exact I.
+  - cbn [build]. destruct k; [exact I|]. apply caches_ok_fresh_short. exact I.
+  - rewrite build_two. cbv zeta. destruct (common_prefix_all _).
+    + apply caches_ok_fresh_full. apply all_ok_forall, Forall_forall. intros c Hin.
+      apply in_map_iff in Hin as (i & <- & _). apply IH.
+    + apply caches_ok_fresh_short. apply IH.
+Qed.
+
+Lemma sorted_nodup l : sorted_pf l -> NoDup (map fst (map hexkv l)).
+Proof.
+  induction l as [|a l IH]; cbn [sorted_pf map fst]; [constructor|]. intros [Hf Hs].
+  constructor; auto. intros Hin. apply in_map_iff in Hin as ([k w] & E & Hin). cbn in E. subst k.
+  apply in_hexkv in Hin as (kb' & Hin & E). rewrite Forall_forall in Hf.
+  specialize (Hf _ Hin). cbn [fst] in Hf. unfold hexkv in E. cbn [fst] in E. rewrite E in Hf.
+  eapply lt_pf_irrefl; eauto.
+Qed.
+
+(** streaming trie = trie: for keys fed in strictly increasing order, none a prefix of another
+    ([sorted_pf]: consecutive and non-consecutive keys diverge at a proper nibble, the earlier
+    key carrying the smaller one), and non-empty values, StackTrie does not panic and its
+    Hash is the root of the canonical trie of the same content *)
+Theorem stack_equals kvs :
+  Forall (fun kv => is_bytes (fst kv) /\ snd kv <> []) kvs -> sorted_pf kvs ->
+  stack_root H kvs = Some (build_root H kvs).
+Proof.
+  intros Hok Hs.
+  destruct (st_updates_srel H Hlen [] kvs [] StEmpty Empty) as (s' & n' & F1 & F2 & F3 & F4 & F5); auto.
+  { left; auto. } { constructor. } { intros k' w. cbn. rewrite has_empty. tauto. } { intros a b []. }
+  cbn [app] in F5. unfold stack_root. rewrite F1. f_equal.
+  destruct F3 as [[-> ->]|Hr].
+  - assert (kvs = []) as ->.
+    { destruct kvs as [|[kb v] t]; auto. exfalso.
+      assert (Hx : has Empty (keybytes_to_hex kb) v) by (apply F5; left; reflexivity). inversion Hx. }
+    unfold st_root. cbn [st_hash]. unfold empty_root. rewrite (nlen_H H Hlen). reflexivity.
+  - rewrite (st_root_rel H Hlen s' n' (srel_strel H _ _ Hr) (srel_node H _ _ Hr)).
+    unfold build_root. change (map (fun kv => (keybytes_to_hex (fst kv), snd kv)) kvs) with (map hexkv kvs).
+    set (m' := map hexkv kvs) in *. set (B := build (build_fuel m') m').
+    assert (Ee : erase n' = erase B) by (apply build_canonical; auto; apply sorted_nodup; auto).
+    assert (Hcb : canon B) by (apply (canon_same_erase n' B); auto).
+    assert (HneB : B <> Empty).
+    { intros X. rewrite X in Ee. cbn in Ee. apply erase_empty in Ee. pose proof (srel_node H _ _ Hr) as Hn.
+      rewrite Ee in Hn. exact Hn. }
+    rewrite (root_hash_eq H B Hcb HneB (build_caches _ _ true)).
+    rewrite (cenc_erase H n' B Ee). reflexivity.
+Qed.
+
+End Top.
+
+(* ------------------------------------------------------------------ the order on byte keys *)
+
+(** [blt a b]: at the first position where the byte strings differ, both have a byte and a's is
+    smaller — a sorts strictly before b (bytes.Compare) and neither is a prefix of the other *)
+Definition blt (a b : bytes) : Prop :=
+  exists pre x y ra rb, a = pre ++ x :: ra /\ b = pre ++ y :: rb /\ (x < y)%N.
+
+Fixpoint sorted_bytes (l : list (bytes * bytes)) : Prop :=
+  match l with
+  | [] => True
+  | a :: t => Forall (fun b => blt (fst a) (fst b)) t /\ sorted_bytes t
+  end.
+
+Lemma hex_nonempty t : keybytes_to_hex t <> [].
+Proof. destruct t; discriminate. Qed.
+
+Lemma hex_app pre t :
+  keybytes_to_hex (pre ++ t) = removelast (keybytes_to_hex pre) ++ keybytes_to_hex t.
+Proof.
+  induction pre as [|a pre IH]; [reflexivity|]. cbn [app keybytes_to_hex]. rewrite IH.
+  pose proof (hex_nonempty pre) as Hne. destruct (keybytes_to_hex pre) eqn:E; [congruence|]. reflexivity.
+Qed.
+
+Lemma blt_lt_pf a b : is_bytes a -> is_bytes b -> blt a b ->
+  lt_pf (keybytes_to_hex a) (keybytes_to_hex b).
+Proof.
+  intros Ha Hb (pre & x & y & ra & rb & -> & -> & Hxy).
+  apply Forall_app in Ha as [_ Ha]. apply Forall_app in Hb as [_ Hb].
+  inversion Ha as [|? ? Hx _]; inversion Hb as [|? ? Hy _]; subst.
+  rewrite !hex_app. cbn [keybytes_to_hex]. set (P := removelast (keybytes_to_hex pre)).
+  assert (By : (y / 16 < 16)%N) by (apply N.div_lt_upper_bound; lia).
+  assert (Bm : (y mod 16 < 16)%N) by (apply N.mod_lt; lia).
+  assert (Hle : (x / 16 <= y / 16)%N) by (apply N.div_le_mono; lia).
+  destruct (N.lt_ge_cases (x / 16) (y / 16)) as [Hd|Hd].
+  - exists P, (N.to_nat (x / 16)), (N.to_nat (y / 16)), (N.to_nat (x mod 16) :: keybytes_to_hex ra),
+           (N.to_nat (y mod 16) :: keybytes_to_hex rb). repeat split; auto; lia.
+  - assert (Heq : (x / 16 = y / 16)%N) by lia.
+    exists (P ++ [N.to_nat (x / 16)]), (N.to_nat (x mod 16)), (N.to_nat (y mod 16)),
+           (keybytes_to_hex ra), (keybytes_to_hex rb).
+    assert (Hm : (x mod 16 < y mod 16)%N).
+    { pose proof (N.div_mod x 16). pose proof (N.div_mod y 16). lia. }
+    rewrite <- !app_assoc. cbn [app]. rewrite Heq. repeat split; auto; lia.
+Qed.
+
+Lemma sorted_bytes_pf l : Forall (fun kv => is_bytes (fst kv) /\ snd kv <> []) l ->
+  sorted_bytes l -> sorted_pf l.
+Proof.
+  induction l as [|a l IH]; cbn [sorted_bytes sorted_pf]; auto. intros Hok [Hf Hs].
+  inversion Hok as [|? ? [Ha _] Hok']; subst. split; auto.
+  rewrite Forall_forall in *. intros b Hin. apply blt_lt_pf; auto. apply (Hok' b Hin).
+Qed.
